@@ -7,7 +7,7 @@ from ..common import eqstar, plain, weighted
 
 PLAN = {
     "quick": {"shards": 8, "cases": 2000, "min_nontrivial": 8000, "budget_s": 300},
-    "thorough": {"shards": 16, "cases": 12000, "min_nontrivial": 80000, "budget_s": 1500},
+    "thorough": {"shards": 16, "cases": 40000, "min_nontrivial": 224000, "budget_s": 1500},
 }
 RULE = ("a case is a typed list or dict field (item/key/value families with concrete normal forms, including "
         "normalising ones: numbers from text, case/strip transforms on keys) plus a history of 1-30 operations with "
